@@ -5,6 +5,7 @@ import (
 	"fmt"
 	"net/http"
 	"reflect"
+	"sort"
 	"strings"
 	"sync"
 
@@ -298,8 +299,17 @@ func (r *Router) Resource(basePath string, controller any, middles ...HandlerFun
 	resName := strings.ToLower(ct.Elem().Name())
 	basePath += resName
 
+	// Notice: use a fixed order, the iteration order of a map is random. "create" must be registered
+	// before "{id}": with a path variable in the base path both are dynamic routes, the earliest wins.
+	names := make([]string, 0, len(RESTFulActions))
+	for name := range RESTFulActions {
+		names = append(names, name)
+	}
+	sort.Strings(names)
+
 	r.Group(basePath, func() {
-		for name, methods := range RESTFulActions {
+		for _, name := range names {
+			methods := RESTFulActions[name]
 			m := cv.MethodByName(name)
 			if !m.IsValid() {
 				continue
